@@ -369,6 +369,66 @@ package fit
 //@   loop 0 assigns wpos(e.w), outb(e.w, *)
 //@   loop 0 decreases len(def.fields) - rangeindex
 
+//@ func NewFile(t FileType, h Header) (r *File, err error)
+//@   props C03 C05
+//@   ensures [supported] (err == nil) <==> heldType(t)
+//@   ensures [file] err == nil ==> r != nil && fresh(r) && r.FileId.Type == t && same(r.Header, h) && wf_file(r) && file_ready(r)
+//@   ensures [none] err != nil ==> r == nil
+//@   assigns nothing
+
+//@@ assumed (reflection over the container structs, a map, sort.Slice: outside the supported subset): the message
+//@@ writers only append to the encoder's output
+//@ func (e *encoder) encodeDefAndDataMesg(mesg reflect.Value) (err error)
+//@   props C05
+//@   trusted
+//@   requires e.w != nil
+//@   ensures [append] wpos(e.w) >= old(wpos(e.w)) && (forall k in 0..old(wpos(e.w)) :: outb(e.w, k) == old(outb(e.w, k)))
+//@   assigns wpos(e.w), outb(e.w, *)
+//@ func (e *encoder) encodeFile(file reflect.Value) (err error)
+//@   props C05
+//@   trusted
+//@   requires e.w != nil
+//@   ensures [append] wpos(e.w) >= old(wpos(e.w)) && (forall k in 0..old(wpos(e.w)) :: outb(e.w, k) == old(outb(e.w, k)))
+//@   assigns wpos(e.w), outb(e.w, *)
+
+//@ spec hdrLen(h Header) int := ite(h.Size == 14, 14, 12)
+
+//@ func Encode(w io.Writer, file *File, arch binary.ByteOrder) (err error)
+//@   props C05 C07
+//@   slow header 120
+//@   slow fresh-key 120
+//@   requires [args] w != nil && file != nil && 0 <= wpos(w) && wpos(w) < 1<<32
+//@   requires [wf] wf_file(file)
+//@@ C07: each file type is encoded from its own container (the accessor that is called matches the type)
+//@   callsite Activity [type-Activity] file.FileId.Type == FileTypeActivity
+//@   callsite Device [type-Device] file.FileId.Type == FileTypeDevice
+//@   callsite Settings [type-Settings] file.FileId.Type == FileTypeSettings
+//@   callsite Sport [type-Sport] file.FileId.Type == FileTypeSport
+//@   callsite Workout [type-Workout] file.FileId.Type == FileTypeWorkout
+//@   callsite Course [type-Course] file.FileId.Type == FileTypeCourse
+//@   callsite Schedules [type-Schedules] file.FileId.Type == FileTypeSchedules
+//@   callsite Weight [type-Weight] file.FileId.Type == FileTypeWeight
+//@   callsite Totals [type-Totals] file.FileId.Type == FileTypeTotals
+//@   callsite Goals [type-Goals] file.FileId.Type == FileTypeGoals
+//@   callsite BloodPressure [type-BloodPressure] file.FileId.Type == FileTypeBloodPressure
+//@   callsite MonitoringA [type-MonitoringA] file.FileId.Type == FileTypeMonitoringA
+//@   callsite ActivitySummary [type-ActivitySummary] file.FileId.Type == FileTypeActivitySummary
+//@   callsite MonitoringDaily [type-MonitoringDaily] file.FileId.Type == FileTypeMonitoringDaily
+//@   callsite MonitoringB [type-MonitoringB] file.FileId.Type == FileTypeMonitoringB
+//@   callsite Segment [type-Segment] file.FileId.Type == FileTypeSegment
+//@   callsite SegmentList [type-SegmentList] file.FileId.Type == FileTypeSegmentList
+//@@ C05: header, data and trailing CRC are written in this order; the header says how many data bytes follow; the
+//@@ header CRC and the file CRC are the values stored back into the File, little-endian on the wire
+//@   ensures [data-size] err == nil ==> file.Header.DataSize == uint32(wpos(w)-old(wpos(w))-hdrLen(file.Header)-2) && wpos(w)-old(wpos(w)) >= hdrLen(file.Header)+2
+//@   ensures [header] err == nil ==> outb(w, old(wpos(w))) == file.Header.Size && outb(w, old(wpos(w))+1) == file.Header.ProtocolVersion &&
+//@  |   outb(w, old(wpos(w))+2) == byte(file.Header.ProfileVersion) && outb(w, old(wpos(w))+3) == byte(file.Header.ProfileVersion>>8) &&
+//@  |   outb(w, old(wpos(w))+4) == byte(file.Header.DataSize) && outb(w, old(wpos(w))+5) == byte(file.Header.DataSize>>8) && outb(w, old(wpos(w))+6) == byte(file.Header.DataSize>>16) && outb(w, old(wpos(w))+7) == byte(file.Header.DataSize>>24) &&
+//@  |   outb(w, old(wpos(w))+8) == file.Header.DataType[0] && outb(w, old(wpos(w))+9) == file.Header.DataType[1] && outb(w, old(wpos(w))+10) == file.Header.DataType[2] && outb(w, old(wpos(w))+11) == file.Header.DataType[3]
+//@   ensures [header-crc] err == nil && file.Header.Size == 14 ==> file.Header.CRC == hdr12Sum(file.Header) && outb(w, old(wpos(w))+12) == byte(file.Header.CRC) && outb(w, old(wpos(w))+13) == byte(file.Header.CRC>>8)
+//@   ensures [file-crc] err == nil ==> outb(w, wpos(w)-2) == byte(file.CRC) && outb(w, wpos(w)-1) == byte(file.CRC>>8)
+//@   ensures [prefix] forall k in 0..old(wpos(w)) :: outb(w, k) == old(outb(w, k))
+//@   assigns file.Header.DataSize, file.Header.CRC, file.CRC, wpos(w), outb(w, *)
+
 //@ func (h Header) CheckIntegrity() (err error)
 //@   props C01 C04
 //@   ensures [iff] (err == nil) <==> hdrOK(h)
